@@ -221,7 +221,11 @@ def base_catalog():
           FlexT(StrT(L16), L16), FlexT(S1, L16), FlexT(E1, L8), FlexT(E1, L16), FlexT(VecT(U8, L8), LLE16), FlexT(VecT(LE_U16, LBE16), LBE16),
           FlexT(FlexT(VecT(U8, L8), L8), L8), FlexT(U8, L64), FlexT(VecT(BOOL, L8), L8), FlexT(PE, LLE16), FlexT(U16, LSZ),
           # items whose own length type is more aligned than both their elements and the outer offset type (S77)
-          FlexT(VecT(U8, L32), L8), FlexT(StrT(L16), L8), FlexT(VecT(U8, L16), LLE16)]
+          FlexT(VecT(U8, L32), L8), FlexT(StrT(L16), L8), FlexT(VecT(U8, L16), LLE16),
+          # 2-byte portable offsets with items that can grow past what they count (S103)
+          FlexT(StrT(LLE16), LLE16), FlexT(StrT(LBE16), LBE16),
+          # nested, the inner offset type portable and wider than the outer slot (S106)
+          FlexT(FlexT(U8, LLE32), L8), FlexT(FlexT(VecT(U8, L8), LBE16), L8)]
     F1 = S("F1", "x", U16, "f", FlexT(S1, L16), sized=False)
     F2 = E("F2", L8, V("A", U8), V("B", FlexT(VecT(U8, L8), L8)), sized=False)
     F3 = S("F3", "n", U8, "f", FlexT(StrT(L8), L8), sized=False, default=True)
